@@ -180,6 +180,78 @@ Proof.
   unfold last_blocks. rewrite map_length. lia.
 Qed.
 
+(* ------------------------------------------------------------------ outlet section follows the flow direction (82df6bf) *)
+Lemma mask_assign_pos {V} (d : V) (vals : list V) : forall (cr : list bool) (pos : list nat) (old : list V),
+  length pos = length cr -> length old = length cr ->
+  mask_assign cr (map (fun p => nth p vals d) (select cr pos)) old =
+  Some (map (fun x : bool * nat * V => if fst (fst x) then nth (snd (fst x)) vals d else snd x)
+            (combine (combine cr pos) old)).
+Proof.
+  induction cr as [|c cr IH]; intros [|p pos] [|o old] Hp Ho; simpl in Hp, Ho; try discriminate; [reflexivity|].
+  destruct c; simpl; rewrite IH by lia; reflexivity.
+Qed.
+
+Lemma select_blocks_seq : forall bl a, select (blocks_mask bl) (seq a (total_len bl)) = pos_of_blocks a bl.
+Proof.
+  induction bl as [|[pre post] bl IH]; intros a; [reflexivity|].
+  change (blocks_mask ((pre, post) :: bl)) with ((repeat false pre ++ true :: repeat false post) ++ blocks_mask bl).
+  simpl total_len. unfold block_len. simpl fst. simpl snd.
+  replace (pre + 1 + post + total_len bl) with (pre + S (post + total_len bl)) by lia.
+  rewrite seq_app. change (seq (a + pre) (S (post + total_len bl))) with ((a + pre) :: seq (S (a + pre)) (post + total_len bl)).
+  rewrite seq_app, <- app_assoc. simpl app.
+  rewrite (select_false_prefix pre (seq a pre)) by apply seq_length. simpl select.
+  rewrite (select_false_prefix post (seq (S (a + pre)) post)) by apply seq_length.
+  rewrite IH. simpl pos_of_blocks. unfold block_len. simpl fst. simpl snd.
+  f_equal. f_equal. lia.
+Qed.
+
+Lemma pos_of_blocks_length bl : forall a, length (pos_of_blocks a bl) = length bl.
+Proof. induction bl; intros; simpl; auto. Qed.
+
+Lemma fmask_from_repeat l s rest : fmask_from l (repeat l s ++ rest) = repeat false s ++ fmask_from l rest.
+Proof. induction s; simpl; auto. rewrite Z.eqb_refl. simpl. now f_equal. Qed.
+
+Lemma fmask_from_blocks : forall labels secs prev,
+  length secs = length labels -> ~ In prev labels -> NoDup labels -> (forall s, In s secs -> 0 < s) ->
+  fmask_from prev (idx_pit_of labels secs) = blocks_mask (first_blocks secs).
+Proof.
+  unfold idx_pit_of, blocks_mask, first_blocks.
+  induction labels as [|l labels IH]; intros [|s secs] prev Hl Hp Hnd Hpos; simpl in Hl; try discriminate; [reflexivity|].
+  assert (Hs : 0 < s) by (apply Hpos; simpl; auto). destruct s as [|s']; [lia|].
+  inversion Hnd as [|? ? Hn Hnd']; subst.
+  simpl flat_map. simpl repeat. simpl app. simpl fmask_from.
+  destruct (Z.eqb_spec l prev) as [E|NE]; [exfalso; apply Hp; simpl; auto|].
+  rewrite fmask_from_repeat. rewrite IH by (auto; intros; apply Hpos; simpl; auto).
+  unfold block_mask. simpl. replace (s' - 0) with s' by lia. reflexivity.
+Qed.
+
+Lemma fmask_first_blocks : forall labels secs,
+  length secs = length labels -> NoDup labels -> (forall s, In s secs -> 0 < s) ->
+  fmask (idx_pit_of labels secs) = blocks_mask (first_blocks secs).
+Proof.
+  intros [|l labels] [|s secs] Hl Hnd Hpos; simpl in Hl; try discriminate; [reflexivity|].
+  assert (Hs : 0 < s) by (apply Hpos; simpl; auto). destruct s as [|s']; [lia|].
+  inversion Hnd as [|? ? Hn Hnd']; subst.
+  unfold idx_pit_of, blocks_mask, first_blocks. simpl flat_map. simpl repeat. simpl app. unfold fmask.
+  rewrite fmask_from_repeat.
+  pose proof (fmask_from_blocks labels secs l ltac:(lia) Hn Hnd' ltac:(intros; apply Hpos; simpl; auto)) as E.
+  unfold idx_pit_of, blocks_mask, first_blocks in E. rewrite E.
+  unfold block_mask. simpl. replace (s' - 0) with s' by lia. reflexivity.
+Qed.
+
+Lemma outlet_rows_eq {V} (d : V) (conn sw : list bool) (vals : list V) : forall firsts lasts old,
+  length firsts = length lasts ->
+  map (fun x : bool * nat * V => if fst (fst x) then nth (snd (fst x)) vals d else snd x)
+      (combine (combine (map (fun p => nth p conn false) lasts)
+                        (map (fun x : bool * (nat * nat) => if fst x then fst (snd x) else snd (snd x))
+                             (combine (map (fun p => nth p sw false) lasts) (combine firsts lasts)))) old)
+  = outlet_rows d firsts lasts conn sw vals old.
+Proof.
+  unfold outlet_rows.
+  induction firsts as [|f firsts IH]; intros [|l lasts] old H; simpl in H; try discriminate; [reflexivity|].
+  destruct old as [|o old]; [reflexivity|]. simpl. rewrite IH by lia. reflexivity.
+Qed.
+
 Lemma total_len_first secs : (forall s, In s secs -> 0 < s) -> total_len (first_blocks secs) = fold_right plus 0 secs.
 Proof.
   induction secs as [|s secs IH]; intros H; simpl; auto. unfold block_len; simpl.
@@ -194,6 +266,29 @@ Theorem end_node_placement {V} (d : V) secs (conn : list bool) (vals old : list 
 Proof.
   intros Hpos Hc Hv Ho. split; apply place_ext_rows;
     rewrite ?total_len_first, ?total_len_last; auto; unfold first_blocks, last_blocks; now rewrite map_length.
+Qed.
+
+(* t_outlet_k as of 82df6bf: for every duplicate-free labelling and all section counts, row r receives the value
+   of its own outlet section (last section; first section when FROM_NODE_T_SWITCHED is set at the last section)
+   iff its last section is connected *)
+Theorem outlet_placement {V} (d : V) labels secs (conn sw : list bool) (vals old : list V) :
+  length secs = length labels -> NoDup labels -> (forall s, In s secs -> 0 < s) -> length old = length labels ->
+  place_outlet d (idx_pit_of labels secs) conn sw vals old =
+  Some (outlet_rows d (pos_of_blocks 0 (first_blocks secs)) (pos_of_blocks 0 (last_blocks secs)) conn sw vals old).
+Proof.
+  intros Hl Hnd Hpos Ho.
+  set (firsts := pos_of_blocks 0 (first_blocks secs)). set (lasts := pos_of_blocks 0 (last_blocks secs)).
+  assert (EL : select (gmask (idx_pit_of labels secs)) (seq 0 (length (idx_pit_of labels secs))) = lasts).
+  { rewrite idx_pit_length, gmask_last_blocks by auto. rewrite <- (total_len_last secs Hpos). apply select_blocks_seq. }
+  assert (EF : select (fmask (idx_pit_of labels secs)) (seq 0 (length (idx_pit_of labels secs))) = firsts).
+  { rewrite idx_pit_length, fmask_first_blocks by auto. rewrite <- (total_len_first secs Hpos). apply select_blocks_seq. }
+  unfold place_outlet. cbv zeta. rewrite EL, EF.
+  assert (Lf : length firsts = length secs) by (unfold firsts, first_blocks; now rewrite pos_of_blocks_length, map_length).
+  assert (Ll : length lasts = length secs) by (unfold lasts, last_blocks; now rewrite pos_of_blocks_length, map_length).
+  rewrite mask_assign_pos.
+  - f_equal. apply outlet_rows_eq. lia.
+  - rewrite !map_length, combine_length, map_length, combine_length. lia.
+  - rewrite map_length. lia.
 Qed.
 
 Lemma nth_map_lt2 {X Y} (g : X -> Y) l : forall k d d', k < length l -> nth k (map g l) d = g (nth k l d').
